@@ -28,9 +28,10 @@ const c15I64MaxP1 = "9223372036854775808"
 func c15validCS(r *Rec) string {
 	switch r.Rng.Intn(4) {
 	case 0:
-		return fmt.Sprintf("bsc:%s:56:%s:%s:1:1:%s:%s:0", c15pick(r, "1", "200"), c15pick(r, "0", "200", "400"), c15pick(r, "97", "117", "137"), c15pick(r, "0", "256"), c15pick(r, "0", "8"))
+		// (height 0 and an epoch header without validators are rejected since 6c8eeb9 / 24f4cfb)
+		return fmt.Sprintf("bsc:%s:56:%s:%s:1:1:%s:%s:0", c15pick(r, "1", "200"), c15pick(r, "200", "400", "1000"), c15pick(r, "117", "137", "197"), c15pick(r, "0", "256"), c15pick(r, "0", "8"))
 	case 1:
-		return fmt.Sprintf("eth:%s:30000000:5000:%s:0", c15pick(r, "0", "1", "100"), c15pick(r, "0", "256"))
+		return fmt.Sprintf("eth:%s:30000000:5000:%s:0", c15pick(r, "1", "100", "7"), c15pick(r, "0", "256"))
 	case 2:
 		return fmt.Sprintf("tm:0:1:100:200:10:%s:0:0", c15pick(r, "1", "7"))
 	}
@@ -39,14 +40,14 @@ func c15validCS(r *Rec) string {
 
 func c15genBsc(r *Rec, mostlyValid bool) string {
 	if c15coin(r, 15) { // everything valid and sealed, Extra length at the boundaries of the two slice expressions
-		return fmt.Sprintf("bsc:%s:56:%s:%s:1:1:0:0:0", c15pick(r, "1", "200"), c15pick(r, "0", "200", "400"),
-			c15pick(r, "32", "64", "65", "66", "96", "97", "98", "116", "117"))
+		return fmt.Sprintf("bsc:%s:56:%s:%s:1:1:0:0:0", c15pick(r, "1", "200"), c15pick(r, "0", "200", "400", "400"),
+			c15pick(r, "32", "64", "65", "66", "96", "97", "98", "116", "117", "137"))
 	}
 	if mostlyValid && c15coin(r, 70) {
 		ep := c15pick(r, "1", "200", "100")
-		h := c15pick(r, "0", "200", "400", "1000")
+		h := c15pick(r, "0", "200", "400", "1000", "200", "400")
 		return fmt.Sprintf("bsc:%s:%s:%s:%s:1:1:%s:%s:0", ep, c15pick(r, "56", "97", "0", c15I64Max), h,
-			c15pick(r, "97", "117", "137", "98", "197"), c15pick(r, "0", "256"), c15pick(r, "0", "8"))
+			c15pick(r, "97", "117", "137", "98", "197", "117", "137"), c15pick(r, "0", "256"), c15pick(r, "0", "8"))
 	}
 	return fmt.Sprintf("bsc:%s:%s:%s:%s:%s:%s:%s:%s:%s",
 		c15pick(r, "0", "0", "1", "200", c15U64Max),
@@ -61,7 +62,7 @@ func c15genBsc(r *Rec, mostlyValid bool) string {
 
 func c15genEth(r *Rec, mostlyValid bool) string {
 	if mostlyValid && c15coin(r, 70) {
-		return fmt.Sprintf("eth:%s:%s:%s:%s:0", c15pick(r, "0", "1", "100"), c15pick(r, "5000", "30000000", c15I64Max), c15pick(r, "0", "5000"), c15pick(r, "0", "256"))
+		return fmt.Sprintf("eth:%s:%s:%s:%s:0", c15pick(r, "0", "1", "100", "1", "100"), c15pick(r, "5000", "30000000", c15I64Max), c15pick(r, "0", "5000"), c15pick(r, "0", "256"))
 	}
 	return fmt.Sprintf("eth:%s:%s:%s:%s:%s",
 		c15pick(r, "0", "0", "1", "100", c15U64Max),
@@ -122,7 +123,11 @@ func c15genClientOp(r *Rec, kind string) string {
 	abs := c15bit(r, 93)
 	switch kind {
 	case "create":
-		return strings.Join([]string{"create", abs, c15chain(r), cs, cons, sig, "0"}, " ")
+		ch := c15chain(r)
+		if c15coin(r, 4) {
+			ch = hxs("teleport") // the chain's own name (3b1567f)
+		}
+		return strings.Join([]string{"create", abs, ch, cs, cons, sig, "0"}, " ")
 	case "upgrade":
 		return strings.Join([]string{"upgrade", abs, c15chain(r), cs, cons, sig, "0", "0", "0"}, " ")
 	}
